@@ -176,7 +176,7 @@ def repo_fn_tokens(repo, reg, log):
     return sig + body, body_open, loc
 
 
-def weave_region(repo, reg, mode, log):
+def weave_region(repo, reg, mode, log, contract_only=False):
     """Return (text, info). mode: verify | stub."""
     items = split_region(reg.lines)
     # contract-side token stream
@@ -212,41 +212,46 @@ def weave_region(repo, reg, mode, log):
         out.append("{ unimplemented!() }\n")
         return "".join(out), {"name": reg.name, "mode": "trusted" if (trusted and mode != "stub") else "stub",
                                "loc": loc, "changed": False, "nann": 0}
+    if contract_only:
+        # keep only the annotations of the signature (the contract); proof hints inside the body are dropped
+        cbo = _body_open(creal)
+        anns_before = {k: v for k, v in anns_before.items() if k <= cbo}
     sm = difflib.SequenceMatcher(None, creal, new, autojunk=False)
     out = []
     nann = 0
     changed = False
 
+    # annotations are anchored AFTER the preceding real token (anns_before[k] follows token k-1): a loop
+    # invariant stays attached to the end of its loop header, a contract to the end of the signature.
     def emit_anns(k):
         nonlocal nann
         for a in anns_before.get(k, []):
             out.append("\n//@+\n" + a + "\n//@-\n")
             nann += 1
 
+    emit_anns(0)
     for tag, i1, i2, j1, j2 in sm.get_opcodes():
         if tag == "equal":
             for k in range(i1, i2):
-                emit_anns(k)
                 out.append(_tok_out(creal[k]))
+                emit_anns(k + 1)
         elif tag == "delete":
             changed = True
             for k in range(i1, i2):
-                emit_anns(k)
+                emit_anns(k + 1)
         elif tag == "insert":
             changed = True
             for j in range(j1, j2):
                 out.append(_tok_out(new[j]))
         else:
             changed = True
-            emit_anns(i1)
             for j in range(j1, j2):
                 out.append(_tok_out(new[j]))
-            for k in range(i1 + 1, i2):
-                emit_anns(k)
-    emit_anns(len(creal))
+            for k in range(i1, i2):
+                emit_anns(k + 1)
     text = _layout("".join(out))
     return text, {"name": reg.name, "mode": "verify", "loc": loc, "changed": changed, "nann": nann,
-                  "real_tokens": new}
+                  "real_tokens": new, "contract_only": contract_only}
 
 
 def _body_open(tl):
@@ -329,7 +334,7 @@ def stub_lemma(reg):
     return "#[verifier::external_body]\n" + text[:last_open.start] + "{ unimplemented!() }\n"
 
 
-def build_unit(repo, contracts_dir, unit, out_path):
+def build_unit(repo, contracts_dir, unit, out_path, contract_only=()):
     """unit: dict with 'parts': list of {file, mode, verify:[names], stub:[names]}.
     Writes the generated Verus file; returns info dict (regions with line ranges, rewrite log)."""
     log = []
@@ -378,7 +383,7 @@ def build_unit(repo, contracts_dir, unit, out_path):
                 else:
                     add("\n".join(reg.lines) + "\n", {"name": reg.name, "mode": "lemma"})
             else:
-                text, info = weave_region(repo, reg, mode, log)
+                text, info = weave_region(repo, reg, mode, log, contract_only=(reg.name in contract_only))
                 info["contract"] = "%s:%d" % (os.path.basename(reg.file), reg.lineno)
                 add("// region %s (%s) from %s:%d-%d\n" % ((reg.name, info["mode"]) + info["loc"]) + text, info)
     os.makedirs(os.path.dirname(out_path), exist_ok=True)
